@@ -322,10 +322,31 @@ def run_case(case, drv):
         for r in range(rounds):
             wants.append(eval_exact(e, round_draws(r), {}, m))
     except ZeroDiv:
-        res.features.append("skipped:zero-denominator")
+        res.features.append("zero-denominator:numpy-semantics")
         rep = drv.ask(request(round_draws(len(wants))))
         if rep != "err:zerodiv":
             res.disagree("zero-denominator guard", "zero-div", rep)
+        # the rational model stops here; the property still says "the expression applied to the arrays drawn from the leaves", and for
+        # arrays x / 0 is inf or nan: the real sampler is compared with the same numpy operations on the same draws (first round)
+        class _Replay:
+            def __init__(self, arrs):
+                self.arrs, self.k = arrs, 0
+
+            def rvs(self, size=1):
+                a = np.array([float(Fraction(t)) for t in self.arrs[min(self.k, len(self.arrs) - 1)]])
+                self.k += 1
+                return a
+        rd0 = round_draws(0)
+        with np.errstate(all="ignore"):
+            want_np = eval_np(e, [_Replay(rd0[i]) for i in range(case["nleaves"])], m)
+            try:
+                got_np = build_py(e, [Stub(i) for i in range(case["nleaves"])]).rvs(m)
+            except Exception as ex:  # noqa
+                res.fail("rvs:raises", f"sampling {tokens(e)} with a zero in a denominator raised {ex!r}")
+                return res
+        if np.shape(got_np) != (m,) or not np.array_equal(np.asarray(got_np, dtype=float), np.asarray(want_np, dtype=float), equal_nan=True):
+            res.fail("rvs:value-zero-denominator", f"{tokens(e)}: got {list(np.asarray(got_np).ravel())}, the expression on the leaf arrays gives {list(np.asarray(want_np).ravel())} "
+                                                   "(division by a zero draw is inf / nan, as for any numpy array)")
         res.nontrivial = False
         return res
     except OverflowError:
